@@ -101,6 +101,40 @@ class PropertyRun:
                                source="spec")
         return r
 
+    def prove(self, module, timeout=900):
+        """Have the TLA+ proof system (tlapm) check the proofs of spec/<module>.tla: every obligation must be discharged.
+        An undischarged obligation is a spec-level violation; tlapm not running at all is a machinery failure."""
+        import re
+        import subprocess
+        t0 = time.time()
+        tmp = tempfile.mkdtemp(prefix=f"nsv-{self.pid}-tlaps-")
+        try:
+            spec = os.path.join(os.path.dirname(os.path.dirname(os.path.abspath(__file__))), "spec")
+            try:
+                r = subprocess.run(["tlapm", "--threads", "8", "--cache-dir", tmp, "--cleanfp", "-I", spec,
+                                    os.path.join(spec, module + ".tla")],
+                                   stdout=subprocess.PIPE, stderr=subprocess.STDOUT, text=True, timeout=timeout, cwd=tmp)
+            except (OSError, subprocess.TimeoutExpired) as e:
+                raise tlc.MachineryError(f"tlapm {module}: {e}")
+            out = r.stdout
+            m = re.search(r"All (\d+) obligations? proved", out)
+            f = re.search(r"(\d+)/(\d+) obligations? failed", out)
+            if m:
+                n, bad = int(m.group(1)), 0
+            elif f:
+                bad, n = int(f.group(1)), int(f.group(2))
+            else:
+                raise tlc.MachineryError(f"tlapm {module}: no verdict\n{out[-1500:]}")
+            self.detail.setdefault("proofs", []).append({"module": module, "obligations": n, "discharged": n - bad,
+                                                         "backend": "tlapm (SMT, Zenon, Isabelle, PTL)",
+                                                         "wall_s": round(time.time() - t0, 2)})
+            if bad:
+                self.add_violation(f"spec:{module}:{bad} of {n} proof obligations not discharged",
+                                   {"module": module, "tlapm_tail": out[-3000:]}, source="spec")
+            return n, bad
+        finally:
+            shutil.rmtree(tmp, ignore_errors=True)
+
     # ---------------------------------------------------------------- traces
     def validate(self, module, events, name=None, cfg=None, chunks=1, env=None, timeout=900, heap="2g",
                  groups=None, count_traces=None, silent_steps=False):
